@@ -9,6 +9,7 @@ from . import rules_param as PA
 from . import rules_pchk as K
 from . import rules_own as O
 from . import rules_kernels as KN
+from . import rules_hw as HW
 from . import rules_flow as F
 from . import rules_sib as SB
 
@@ -172,6 +173,7 @@ def c14(ctx):
         T.r_tables(ctx, prog)
         T.r_poly(ctx, prog)
         T.r_table_writers(ctx, prog)
+        T.r_accum_init(ctx, prog)
         T.r_init_before_use(ctx, prog)
     return dict(
         explanation='R-TABLES compares every entry of every compiled copy of the nine precomputed GF(2^4)/GF(2^8) tables '
@@ -289,14 +291,18 @@ def c18(ctx):
     for prog in programs(ctx):
         MX.r_wordgeom(ctx, prog)
         T.r_hw8(ctx, prog)
+        HW.r_swar(ctx, prog)
+        HW.r_hw32_table(ctx, prog)
+        HW.r_hw_array(ctx, prog)
         MX.r_bitloop(ctx, prog)
         MX.r_idx_guard(ctx, prog, DENSE_UNITS, floor=4)
         O.r_own_field(ctx, prog, [], helpers=True)
         MX.r_pairswap(ctx, prog)
         MX.r_scratch_reset(ctx, prog)
         MX.r_dense_rowfill(ctx, prog)
-        KN.r_kernel_shape(ctx, prog)
-        KN.r_kea(ctx, prog, list(range(0, 2 * KN.P + 9)), [0, 1, 2, 3, 4, 5, 7, 8, 9, 12, 13, 16, 20])
+        # the solver's symbol arithmetic: the XOR kernels only (the GF kernels belong to the Reed-Solomon codecs, not to C18)
+        KN.r_kernel_shape(ctx, prog, KN.XOR_KINDS)
+        KN.r_kea(ctx, prog, list(range(0, 2 * KN.P + 9)), [0, 1, 2, 3, 4, 5, 7, 8, 9, 12, 13, 16, 20], KN.XOR_KINDS)
     return dict(
         explanation='R-WORDGEOM: word/bit addressing constants of get/set/flip and of the allocator are mutually consistent with the '
         'word type. R-HW8: the byte popcount table is exact (exhaustive). R-BITLOOP: the bit-serial popcount visits every bit. '
@@ -322,6 +328,7 @@ def c05(ctx):
         PA.r_param(ctx, prog, codecs=(3,), only=['seed', 'N1>=3', 'N1<=r'])
         K.r_staircase(ctx, prog)
         K.r_colfill(ctx, prog)
+        K.r_rowdeg2(ctx, prog)
         K.r_verbosity(ctx, prog)
     return dict(
         explanation='"Depends only on (k, n, N1, seed), same for encoder and decoder, after any history": R-PURE-PCHK (effects of the '
@@ -436,6 +443,13 @@ def c06(ctx):
         F.r_nullslot(ctx, prog, MAIN3)
         F.r_enc_loop(ctx, prog, MAIN3)
         SB.r_siblings(ctx, prog, ['rs-algebra'])
+        # the LDPC-Staircase codeword is defined by the RFC 5170 matrix: construction steps and the generator behind them
+        P.r_srand_dom(ctx, prog)
+        P.r_fpscale(ctx, prog)
+        P.r_prng_step(ctx, prog)
+        K.r_colfill(ctx, prog)
+        K.r_rowdeg2(ctx, prog)
+        K.r_staircase(ctx, prog)
         I.r_apiguard(ctx, prog, which=['of_build_repair_symbol', 'of_rs_build_repair_symbol', 'of_rs_2_m_build_repair_symbol',
                                       'of_ldpc_staircase_build_repair_symbol'])
         I.r_dispatch(ctx, prog, MAIN3, ['of_build_repair_symbol', 'of_set_fec_parameters'])
@@ -463,6 +477,11 @@ def c07(ctx):
         O.r_dangling(ctx, prog, 'api')
         O.r_freelist(ctx, prog)
         CB.r_srcptr(ctx, prog, MAIN3)
+        # the RS decoders scan their n-entry tables for k non-NULL entries: the count that starts decoding must be a count of
+        # distinct symbols (a duplicate counted twice sends the scan past the table)
+        D.r_dup(ctx, prog, RS)
+        D.r_count(ctx, prog, RS)
+        D.r_rs_threshold(ctx, prog, RS)
         KN.r_kernel_shape(ctx, prog)
         if ctx.tier == 'thorough':
             KN.r_kea(ctx, prog, list(range(0, 4 * KN.P + 1)), list(range(0, 21)))
